@@ -372,19 +372,21 @@ class World:
         return "float" if load < 200 else "skip"
 
     def float_range(self, d, sysname):
-        """an exception raised inside float arithmetic: the input or the system's units have float factors"""
+        """an exception raised inside float arithmetic (OverflowError of Fraction ** float, inf -> Fraction …):
+        some unit of the input or some base unit of the system has a float factor even in the Fraction registry"""
         u = self.u
-        try:
-            fu, _ = u._get_root_units(mkuc(u, d), check_nonmult=False)
-            if not is_exact(fu):
+        names = list(d)
+        if sysname in u._systems:
+            names += [k for rep in u._systems[sysname].base_units.values() for k in rep]
+            if any(F(v).denominator != 1 for rep in u._systems[sysname].base_units.values() for v in rep.values()):
                 return True
-            if sysname in u._systems:
-                for rep in u._systems[sysname].base_units.values():
-                    f, _ = u._get_root_units(mkuc(u, ucd(u.UnitsContainer(rep))), check_nonmult=False)
-                    if not is_exact(f) or any(F(v).denominator != 1 for v in rep.values()):
-                        return True
-        except Exception:      # noqa: BLE001
-            return False
+        for n in names:
+            try:
+                f, _ = u._get_root_units(mkuc(u, {n: 1}), check_nonmult=False)
+            except Exception:      # noqa: BLE001
+                return False        # an undefined name: not a float matter
+            if not is_exact(f):
+                return True
         return False
 
     def system_guard(self, s):
